@@ -325,9 +325,35 @@ class SSrc:
         return x
 
 
-def mkfn(ctx, idx, spec, asynchronous=True, suspend=False):
+def mkfn(ctx, idx, spec, asynchronous=True, suspend=False, flavour=None):
+    """flavour (C03): None/'async' = async def; 'def'; 'partial' = functools.partial(async def); 'object' = an object whose
+    __call__ returns a coroutine; a callable flavour() is asked for each callable it creates"""
     if spec is None:
         return None
+    if callable(flavour):
+        flavour = flavour()
+    if flavour in ("def", "partial", "object") and asynchronous:
+        async def af(*args):
+            ctx.ev("call", idx, args)
+            ctx.use()
+            return apply_fn(spec, list(args))
+        if flavour == "def":
+            def f(*args):
+                ctx.ev("call", idx, args)
+                ctx.use()
+                return apply_fn(spec, list(args))
+            return f
+        if flavour == "partial":
+            import functools as _ft
+
+            async def af2(_dummy, *args):
+                return await af(*args)
+            return _ft.partial(af2, None)
+
+        class _CallObj:
+            def __call__(self, *args):
+                return af(*args)
+        return _CallObj()
     if asynchronous:
         async def f(*args):
             ctx.ev("call", idx, args)
@@ -545,7 +571,7 @@ def make_tool(name, p):
     if name == "iter_sentinel":
         sent = p["sentinel"]
         return Tool(name, "script", 1, "(TIterSentinel %s)" % coq_val(sent),
-                    lambda ctx, s, **kw: a.iter(mkscript(ctx, s[0], True, **kw), sent),
+                    lambda ctx, s, **kw: a.iter(mkscript(ctx, s[0], True, suspend=kw.get("suspend", False)), sent),
                     lambda ctx, s: builtins.iter(mkscript(ctx, s[0], False), sent))
     if name == "all":
         return Tool(name, "agg", 1, "TAll", lambda ctx, s, **kw: a.all(s[0]), lambda ctx, s: builtins.all(s[0]))
